@@ -184,7 +184,7 @@ MCRT_WRAPS = ["pthread_create", "pthread_join", "pthread_detach", "pthread_exit"
               "pthread_rwlock_init", "pthread_rwlock_destroy", "pthread_rwlock_rdlock", "pthread_rwlock_tryrdlock",
               "pthread_rwlock_wrlock", "pthread_rwlock_trywrlock", "pthread_rwlock_unlock",
               "pthread_key_create", "pthread_key_delete", "pthread_getspecific", "pthread_setspecific",
-              "sched_yield", "pthread_setname_np", "nanosleep", "clock_nanosleep", "usleep",
+              "sched_yield", "pthread_setname_np", "nanosleep", "clock_nanosleep", "usleep", "sleep", "pthread_yield", "pthread_once",
               "malloc", "calloc", "realloc", "free", "memcpy", "memset", "memmove"]
 
 
@@ -203,7 +203,9 @@ PASS_THROUGH = {"pthread_attr_init", "pthread_attr_destroy", "pthread_attr_setde
                 "pthread_attr_setschedpolicy", "pthread_attr_setschedparam", "pthread_attr_setstacksize", "pthread_self", "pthread_equal", "pthread_getschedparam", "pthread_setschedparam",
                 "sched_get_priority_min", "sched_get_priority_max", "clock_gettime", "gettimeofday", "time",
                 "pthread_rwlockattr_init", "pthread_rwlockattr_destroy", "pthread_rwlockattr_setkind_np", "pthread_rwlockattr_getkind_np", "pthread_rwlockattr_setpshared", "pthread_rwlockattr_getpshared",
-                "pthread_mutexattr_init", "pthread_mutexattr_destroy", "pthread_condattr_init", "pthread_condattr_destroy"}
+                "pthread_mutexattr_init", "pthread_mutexattr_destroy", "pthread_mutexattr_settype", "pthread_mutexattr_gettype", "pthread_condattr_init", "pthread_condattr_destroy",
+                "pthread_attr_getstacksize", "pthread_attr_setguardsize", "pthread_attr_getguardsize", "pthread_attr_setscope", "pthread_getattr_np", "pthread_getname_np",
+                "sched_getcpu", "sched_getparam", "sched_getscheduler", "sched_getaffinity"}
 BLOCKING_RE = re.compile(r"^(pthread_|sched_|nanosleep$|clock_nanosleep$|usleep$|sleep$|select$|pselect$|epoll_|sigwait|sigsuspend$|pause$|futex)")
 
 
